@@ -157,20 +157,7 @@ def no_step_lost(chk: Check) -> None:
             ok = ok2
     chk.ob('DOM-no-step-lost', dp, ok, 'whenever a next state is handed to _do_pause it is entered on every non-raising path (the step that was in flight '
            'when the pause was requested is not lost)', kind='transition-when-given')
-    # ... and it is entered FIRST: the pause hooks (user code, listeners that write checkpoints) must see the outcome of the interrupted step, not the RUNNING
-    # state whose function has already been executed -- a checkpoint taken there, or a hook that raises there, runs that step a second time (C06: the resume
-    # value is delivered twice; C08: a completed step is executed again on resume)
-    hooks_ = [n for n in cfg.nodes if any(last_name(c) == 'call_with_super_check' and c.args and norm(c.args[0]) in ('self.on_pausing', 'self.on_paused') for c in _calls(n))]
-    tests_n = [t for t in cfg.nodes if t.kind == 'test' and ('none', nparam) in ff.cond_atoms(t.ast.test, False) | ff.cond_atoms(t.ast.test, True)]
-    ok_first = bool(hooks_) and bool(trans)
-    for h in hooks_:
-        # every way to a pause hook has either made the transition or found that there is no next state
-        ok_first &= cfg.must_pass(cfg.entry, [h], lambda m: m in trans or m in tests_n, edge_ok=no_exc) and not any(
-            h.id in cfg.reachable([s_ for s_, l_ in t.succ if l_ == ('false' if ('none', nparam) in ff.cond_atoms(t.ast.test, True) else 'true')], avoid=lambda m: m in trans, edge_ok=no_exc, include_src=True)
-            for t in tests_n)
-        ok_first &= not any(t_.id in cfg.reachable([h], edge_ok=no_exc) for t_ in trans)
-    chk.ob('DOM-no-step-lost', dp, ok_first, 'the next state is entered before the pause hooks run (on_pausing / on_paused see, and a checkpoint taken there records, the outcome of the '
-           'interrupted step -- not the state whose step function has already run)', node=hooks_[0].ast if hooks_ else None, kind='transition-before-pause-hooks')
+
     hooks = [last_name(c) == 'call_with_super_check' and norm(c.args[0]) for c in calls_in_func(dp, 'call_with_super_check')]
     chk.ob('DOM-no-step-lost', dp, 'self.on_paused' in hooks, '_do_pause runs the paused hook (which creates the pause future)', kind='on-paused-called')
     cia = prog.func('processes.Process._create_interrupt_action')
@@ -224,6 +211,32 @@ def withdrawn_pause_stays_withdrawn(chk: Check) -> None:
                    'was blocked in WAITING is re-instated, the process ends up paused after play()', node=c, kind='withdrawn-pause-reinstated')
     chk.ob('PAIR-play', step, True, f'{len(sites)} site(s) that build an interrupt action from a delivered interruption examined', kind='reinstate-scan')
 
+
+
+def outcome_entered_before_pause_hooks(chk: Check, rule: str) -> None:
+    """``_do_pause(msg, next_state)``: the outcome of the step that was in flight is entered FIRST.  For the executed steps of a run without faults the order is
+    immaterial (C05 does not ask for it); it matters to whoever looks at the process from a pause hook: a checkpoint taken there (C08), or a hook that raises there
+    (C06), meets the RUNNING state whose function has already been executed -- and runs that step a second time."""
+    prog = chk.prog
+    dp = prog.func('processes.Process._do_pause')
+    cfg = cfg_of(dp)
+    ff = chk.ctx.facts.analyse(dp)
+    nparam = dp.params[2] if len(dp.params) > 2 else 'next_state'
+    trans = [n for n in cfg.nodes if any(last_name(c) == 'transition_to' and [norm(a) for a in c.args] == [nparam] for c in _calls(n))]
+    # ... and it is entered FIRST: the pause hooks (user code, listeners that write checkpoints) must see the outcome of the interrupted step, not the RUNNING
+    # state whose function has already been executed -- a checkpoint taken there, or a hook that raises there, runs that step a second time (C06: the resume
+    # value is delivered twice; C08: a completed step is executed again on resume)
+    hooks_ = [n for n in cfg.nodes if any(last_name(c) == 'call_with_super_check' and c.args and norm(c.args[0]) in ('self.on_pausing', 'self.on_paused') for c in _calls(n))]
+    tests_n = [t for t in cfg.nodes if t.kind == 'test' and ('none', nparam) in ff.cond_atoms(t.ast.test, False) | ff.cond_atoms(t.ast.test, True)]
+    ok_first = bool(hooks_) and bool(trans)
+    for h in hooks_:
+        # every way to a pause hook has either made the transition or found that there is no next state
+        ok_first &= cfg.must_pass(cfg.entry, [h], lambda m: m in trans or m in tests_n, edge_ok=no_exc) and not any(
+            h.id in cfg.reachable([s_ for s_, l_ in t.succ if l_ == ('false' if ('none', nparam) in ff.cond_atoms(t.ast.test, True) else 'true')], avoid=lambda m: m in trans, edge_ok=no_exc, include_src=True)
+            for t in tests_n)
+        ok_first &= not any(t_.id in cfg.reachable([h], edge_ok=no_exc) for t_ in trans)
+    chk.ob(rule, dp, ok_first, 'the next state is entered before the pause hooks run (on_pausing / on_paused see, and a checkpoint taken there records, the outcome of the '
+           'interrupted step -- not the state whose step function has already run)', node=hooks_[0].ast if hooks_ else None, kind='transition-before-pause-hooks')
 
 # ---------------------------------------------------------------------- 4. status pairing, play()
 def status_pairing(chk: Check) -> None:
